@@ -19,7 +19,7 @@ import (
 
 // GenOp: one element of the deposit alphabet of the genesis check (C13).
 type GenOp struct {
-	Kind   string // new | badpop | badkey | topup | topup-badsig | samekey-othercreds
+	Kind   string // new | badpop | badkey | new-zerosig | topup | topup-badsig | topup-zerosig | samekey-othercreds
 	Amount uint64
 	Target int // for top-ups: which earlier NEW validator (0 = first base validator, -1 = latest new one)
 }
@@ -32,6 +32,8 @@ func GenAlphabet(c *refspec.Cfg) []GenOp {
 		{"new", max, 0}, {"new", max - 1, 0}, {"new", max - inc, 0}, {"new", inc, 0}, {"new", inc - 1, 0}, {"new", max + inc, 0}, {"new", 2 * max, 0},
 		{"badpop", max, 0}, {"badkey", max, 0},
 		{"topup", inc, 0}, {"topup", inc, -1}, {"topup", max - inc, -1}, {"topup-badsig", inc, -1}, {"samekey-othercreds", inc, -1},
+		// signature bytes that are not even a point encoding: a new validator is skipped, a top-up is credited
+		{"topup-zerosig", inc, -1}, {"new-zerosig", max, 0},
 	}
 }
 
@@ -48,6 +50,12 @@ func (w *World) buildGenesisDeposits(base int, ops []GenOp, interleaveAt int) []
 			nextKey++
 		case "badpop":
 			datas = append(datas, w.MakeDepositData(nextKey, o.Amount, BLSCreds(w.Keys[nextKey].PK), (nextKey+1)%len(w.Keys)))
+			newKeys = append(newKeys, nextKey)
+			nextKey++
+		case "new-zerosig":
+			d := w.MakeDepositData(nextKey, o.Amount, BLSCreds(w.Keys[nextKey].PK), nextKey)
+			d.Signature = refspec.Signature{}
+			datas = append(datas, d)
 			newKeys = append(newKeys, nextKey)
 			nextKey++
 		case "badkey":
@@ -70,7 +78,11 @@ func (w *World) buildGenesisDeposits(base int, ops []GenOp, interleaveAt int) []
 			if o.Kind == "samekey-othercreds" {
 				creds = Eth1Creds(0x77)
 			}
-			datas = append(datas, w.MakeDepositData(k, o.Amount, creds, signer))
+			d := w.MakeDepositData(k, o.Amount, creds, signer)
+			if o.Kind == "topup-zerosig" {
+				d.Signature = refspec.Signature{}
+			}
+			datas = append(datas, d)
 		}
 	}
 	for i := 0; i < base; i++ {
